@@ -136,6 +136,12 @@ class SequentialPlan(plans.plan.Plan):
         all_required: Dict[FNode, List["plans.plan.ActionInstance"]] = {}
         # graph stores the information gathered through the process
         graph = nx.DiGraph()
+        # a state invariant must hold after every action: an action that writes one of
+        # the fluents of an invariant depends on the value of all the fluents of that invariant
+        invariants_fluents: List[Set[FNode]] = [
+            fve.get(eqr.remove_quantifiers(inv, problem))
+            for inv in getattr(problem, "state_invariants", [])
+        ]
         for action_instance in self.actions:
             graph.add_node(action_instance)
             assert isinstance(action_instance.action, InstantaneousAction)
@@ -178,6 +184,16 @@ class SequentialPlan(plans.plan.Plan):
                 required_fluents.add(
                     simp.simplify(subs.substitute(lifted_fluent, assignments))
                 )
+
+            if invariants_fluents:
+                for effect in inst_action.effects:
+                    for eff in effect.expand_effect(problem):
+                        written_fluent = simp.simplify(
+                            subs.substitute(eff.fluent, assignments)
+                        )
+                        for invariant_fluents in invariants_fluents:
+                            if written_fluent in invariant_fluents:
+                                required_fluents |= invariant_fluents
 
             # for every required fluent, add this action instance to the list of action instances that requires this fluent
             # and order the current action instance after the last modifier of the fluent
